@@ -142,6 +142,10 @@ impl<I: Iterator> Iterator for ProgressPart<I> {
         }
         item
     }
+
+    fn size_hint(&self) -> (usize, Option<usize>) {
+        self.it.size_hint()
+    }
 }
 
 impl<I: ExactSizeIterator> ExactSizeIterator for ProgressPart<I> {
@@ -238,6 +242,10 @@ impl<S: Send, T: ParallelIterator<Item = S>> ParallelIterator for ProgressBarIte
     fn drive_unindexed<C: UnindexedConsumer<Self::Item>>(self, consumer: C) -> C::Result {
         let consumer1 = ProgressConsumer::new(consumer, self.progress.clone());
         self.it.drive_unindexed(consumer1)
+    }
+
+    fn opt_len(&self) -> Option<usize> {
+        self.it.opt_len()
     }
 }
 
